@@ -363,7 +363,7 @@ def _check_mean(repo, res, cls):
         f = repo.resolve_method(cls, name)
         if f is None:
             raise AnalysisError("%s vanished" % name)
-        for iteration in (1, 2, 5):
+        for iteration in (1, 2, 5, 130, 257):
             for full in (True, False):
                 tag = "mean-of-returned-runs(iteration=%d,full_output=%s)" % (iteration, full)
                 calls = []
